@@ -143,7 +143,7 @@ def encode_table(F, path):
     fn = T.ser_impl(F, path)
     if fn is None:
         return None
-    t = T.map_ser_table(fn)
+    t = ser_table(F, fn)
     if t is None:
         return None
     ftys = field_types(F, path) or {}
@@ -398,3 +398,99 @@ def handwritten_leaves(F):
         if p not in attributed:
             out[("fn", p)] = ls
     return out
+
+
+def ser_table(F, fn):
+    """map-emission table of a Serialize impl: generated impls are read from their (stable) expansion shape, hand-written ones
+    from their path summaries"""
+    im = fn.get("impl") or {}
+    if im.get("impl_pv") == "user":
+        t = map_emitter_sym(F, fn)
+        if t is not None:
+            return t
+    return T.map_ser_table(fn)
+
+
+def map_emitter_sym(F, fn):
+    """hand-written map-emitting Serialize impl, from its path summaries: on every path that does not fail the announced member
+    count equals the members emitted; a member is either always emitted or emitted exactly when its Option field is Some.
+    Same result format as tables.map_ser_table, plus header['count_ok']."""
+    from . import sym as S
+    from . import hirq as H
+    HDR = {"serde_core::ser::Serializer::serialize_struct": "text", "serde_core::ser::Serializer::serialize_map": "indexed"}
+    ENT = ("serde_core::ser::SerializeStruct::serialize_field", "serde_core::ser::SerializeMap::serialize_entry")
+    END = ("serde_core::ser::SerializeStruct::end", "serde_core::ser::SerializeMap::end")
+    if not any(x.get("callee") in HDR for x in H.walk(fn["body"])):
+        return None
+    sym = S.Sym(F, fn, is_effect=lambda callee, args, node, st: (node.get("callee") or "").startswith("serde_core::ser::") if isinstance(node, dict) else False)
+    try:
+        paths = sym.run()
+    except S.TooManyPaths:
+        raise T.Unreadable("too many paths in a hand-written map emitter")
+    me = ("param", "self")
+    good = []
+    kind = None
+    hdr_node = None
+    definite = True
+    count_ok = True
+    ended = True
+    for p in paths:
+        if p.done and p.done[0] == "panic" or p.done == "diverge":
+            raise T.Unreadable("a hand-written map emitter can panic")
+        effs = list(p.effects)
+        if any(sym.lookup(p, e.term) == S.ERR for e in effs if e.term is not None):
+            continue        # the serializer failed: the whole item fails
+        hs = [e for e in effs if e.tcallee in HDR]
+        if len(hs) != 1:
+            raise T.Unreadable("a path opens %d maps" % len(hs))
+        h = hs[0]
+        kind = HDR[h.tcallee]
+        hdr_node = h.node
+        n = h.args[-1]
+        if kind == "indexed":
+            if n[0] == "ctor" and n[1] == S.SOME:
+                n = n[2][0]
+            else:
+                definite = False
+        ents = [e for e in effs if e.tcallee in ENT]
+        Sq = sym.proj(h.term, S.OK, 0)
+        row = []
+        for e in ents:
+            key = e.args[1]
+            val = e.args[2] if len(e.args) > 2 else None
+            if e.args[0] != Sq or key[0] != "lit" or val is None:
+                raise T.Unreadable("an entry is not emitted into the opened map with a literal key")
+            v = val
+            if v[0] == "proj" and v[2] == S.SOME:
+                v = v[1]
+            if not (v[0] == "field" and v[1] == me):
+                raise T.Unreadable("an emitted value is not a field of self: %s" % S.show(val)[:60])
+            row.append((key[1], v[2], e))
+        if not (n[0] == "lit" and n[1] == len(row)):
+            count_ok = False
+        ends = [e for e in effs if e.tcallee in END]
+        if len(ends) != 1 or ends[0].args != (Sq,):
+            ended = False
+        good.append((p, row))
+    if not good:
+        raise T.Unreadable("no successful path")
+    order = max((r for _, r in good), key=len)
+    names = [f for _, f, _ in order]
+    for _, r in good:
+        it = iter(names)
+        if not all(f in it for _, f, _ in r):
+            raise T.Unreadable("members are emitted in different orders on different paths")
+    entries = []
+    for key, f, e in order:
+        on = [p for p, r in good if any(x[1] == f for x in r)]
+        off = [p for p, r in good if not any(x[1] == f for x in r)]
+        ft = ("field", me, f)
+        if not off:
+            guard = None
+        elif all(sym.lookup(p, ft) == S.SOME for p in on) and all(sym.lookup(p, ft) == S.NONE for p in off):
+            guard = {"pred": T.IS_NONE, "field": f, "emit_when_pred": False}
+        else:
+            guard = {"pred": "<path-dependent>", "field": f, "emit_when_pred": None}
+        entries.append({"key": key, "field": f, "guard": guard, "node": e.node, "vty": None})
+    header = {"call": "serialize_struct" if kind == "text" else "serialize_map", "definite": definite, "node": hdr_node, "count_ok": count_ok}
+    return {"kind": kind, "entries": entries, "header": header, "ended": ended, "sym": True}
